@@ -1,10 +1,13 @@
 import Afkak.Monitor.C16
-import AfkakProofs.Group.Step
+import AfkakProofs.Group.Fence
+import AfkakProps.Open.C16
 /-!
 # C16 — generation fencing: no partition consumer outlives its group generation
 Property theorems only; helper lemmas live in `AfkakProofs/Group/`.
 All theorems quantify over EVERY configuration and EVERY event list (an event the state does not
 enable is a no-op), i.e. over all rebalance histories, reply/timer interleavings and error kinds.
+The `…(toMSteps (run cfg evs)) = true` statements are about the very monitors the driver evaluates
+on the implementation's traces.
 -/
 namespace Afkak.Props.C16
 open Afkak.Group Afkak.Consts Afkak.Monitor.C16
@@ -21,10 +24,27 @@ theorem C16_fenced (cfg : Cfg) (evs : List Ev) :
   have hh : c.held = true := (h.held_running c hc).mpr hr
   exact ⟨hh, h.held_cur c hc hh⟩
 
+/-- Consumers are started ONLY by a processed successful sync reply: one per assigned partition,
+    in order, from `OFFSET_COMMITTED`, with the generation and member id the member has after that
+    step (monitor `startsCommitted` on every model trace). -/
+theorem C16_starts_committed (cfg : Cfg) (evs : List Ev) : startsCommitted (toMSteps (run cfg evs)) = true :=
+  startsCommitted_run cfg evs
+
+/-- Every successful join reply the member processes replaces its member id and generation by the
+    reply's: together with `C16_starts_committed` the identity handed to consumers is never stale
+    (monitor `joinAdopted` on every model trace). -/
+theorem C16_join_adopted (cfg : Cfg) (evs : List Ev) : joinAdopted (toMSteps (run cfg evs)) = true :=
+  joinAdopted_run cfg evs
+
+/-- A JoinGroup request is observed only in a step after which NO consumer is running: every
+    consumer of the previous generation has been shut down or stopped before the member (re)joins
+    (monitor `joinNoRunning` on every model trace). -/
+theorem C16_join_no_running (cfg : Cfg) (evs : List Ev) : joinNoRunning (toMSteps (run cfg evs)) = true :=
+  joinNoRunning_run cfg evs
+
 /-- While a join/sync exchange is being prepared or is in flight (consumers shutting down, join
-    sent, leader loading partitions, sync sent) NO partition consumer is running: consumers of the
-    previous generation never overlap a join, and none is started before the sync reply. -/
-theorem C16_join_no_running (cfg : Cfg) (evs : List Ev)
+    sent, leader loading partitions, sync sent) no partition consumer is running. -/
+theorem C16_mid_join_no_running (cfg : Cfg) (evs : List Ev)
     (hj : (final cfg evs).jpc = .prepare ∨ (final cfg evs).jpc = .join ∨ (∃ n, (final cfg evs).jpc = .loadParts n) ∨
           (final cfg evs).jpc = .sync) :
     ∀ c ∈ (final cfg evs).cons, c.phase ≠ .running := by
@@ -34,8 +54,20 @@ theorem C16_join_no_running (cfg : Cfg) (evs : List Ev)
   rw [(h.held_running c hc).mpr hr] at this
   cases this
 
-/-- Once `Coordinator.stop` has begun no consumer is running (they were shut down or stopped
-    first) and no rejoin is wanted any more. -/
+/-- Eviction (illegal generation, unknown member / invalid group id, request time-out) on a join,
+    sync or heartbeat reply or reported by a consumer: in that very step every consumer is stopped
+    (none is running afterwards) and the step issues no join or sync
+    (monitor `evictionStopsFirst` on every model trace). -/
+theorem C16_eviction_stops_first (cfg : Cfg) (evs : List Ev) : evictionStopsFirst (toMSteps (run cfg evs)) = true :=
+  eviction_run cfg evs
+
+/-- After stop only the leave: a step that leaves the member stopping (`Coordinator.stop` has begun
+    or finished) issues no coordinator look-up, join, sync or heartbeat
+    (monitor `afterStopOnlyLeave` on every model trace). -/
+theorem C16_after_stop_only_leave (cfg : Cfg) (evs : List Ev) : afterStopOnlyLeave (toMSteps (run cfg evs)) = true :=
+  afterStop_run cfg evs
+
+/-- Once `Coordinator.stop` has begun no consumer is running and no rejoin is wanted any more. -/
 theorem C16_stopping_quiesced (cfg : Cfg) (evs : List Ev) (hs : (final cfg evs).stopping = true) :
     (∀ c ∈ (final cfg evs).cons, c.phase ≠ .running) ∧ (final cfg evs).rejoinNeeded = false := by
   have h := final_sinv cfg evs
@@ -44,36 +76,61 @@ theorem C16_stopping_quiesced (cfg : Cfg) (evs : List Ev) (hs : (final cfg evs).
   rw [(h.held_running c hc).mpr hr] at this
   cases this
 
-/-- At most one join coroutine: `_rejoin_d` is set exactly while `_join_and_sync` is suspended. -/
+/-- At most one join coroutine: `_rejoin_d` is set exactly while `_join_and_sync` is suspended, and
+    `join_and_sync` starts a new one only when it is not. -/
 theorem C16_one_join_coroutine (cfg : Cfg) (evs : List Ev) :
     ((final cfg evs).rejoinD = true ↔ (final cfg evs).jpc ≠ .idle) :=
   (final_sinv cfg evs).rd_jpc
 
-/-- The source's error table stops the consumers (`on_group_leave`) for every eviction error —
-    illegal generation, unknown member / invalid group, time-out — whether or not the member is
-    stopping, and never ignores such an error. -/
+/-- The source's error table stops the consumers (`on_group_leave`) for every eviction error. -/
 theorem C16_eviction_table (stopping : Bool) (e : GErr) (h : isEviction e = true) :
     (rejoinRow stopping e).leave = true ∧ (rejoinRow stopping e).act ≠ .ignore ∧ (rejoinRow stopping e).act ≠ .fatal :=
   Afkak.Group.Tables.eviction_leave stopping e h
 
-/-! Non-vacuity: a reachable state with running consumers of generation 5, and one in which a join
-is in flight. -/
+/-- The full-strength `C16_join_after_drain` is false of the code: while `stop()` waits for its
+    consumers a pending rejoin timer fires and a JoinGroup goes out with them still draining. -/
+def exCfg : Cfg := { initialBackoffMs := 1000, retryBackoffMs := 125, fatalBackoffMs := 10000, heartbeatMs := 5000 }
+def exJoinDuringStopDrain : List Ev :=
+  [.start, .coordDone .ok, .metaDone .ok, .joinDone (.ok 1 5 false 0), .syncDone (.ok [(1, [0])]), .advance 5, .fire 0,
+   .hbDone (.err .rebalanceInProgress), .stop, .advance (1/8), .fire 2, .coordDone .ok, .metaDone .ok]
+
+theorem C16_join_after_drain_counterexample : ¬ Open.C16_join_after_drain := by
+  intro h
+  have := h exCfg exJoinDuringStopDrain
+  revert this
+  decide +kernel
+
+/-! Non-vacuity: a reachable state with running consumers of generation 5, one with a join in
+flight, a stop that waits for consumers, and an eviction that stops them. -/
 def exStable : List Ev :=
   [.start, .coordDone .ok, .metaDone .ok, .joinDone (.ok 1 5 false 0), .syncDone (.ok [(1, [0, 1])])]
-example : ((final Cfg.default exStable).cons.map fun c => (c.phase, c.gen, c.member)) =
+example : ((final exCfg exStable).cons.map fun c => (c.phase, c.gen, c.member)) =
     [(.running, some 5, 1), (.running, some 5, 1)] := by decide +kernel
-example : (final Cfg.default [.start, .coordDone .ok, .metaDone .ok]).jpc = .join := by decide +kernel
-example : (final Cfg.default (exStable ++ [.stop])).stopping = false ∧
-    (final Cfg.default (exStable ++ [.stop, .consumerDown 0 true, .consumerDown 1 true])).stopping = true := by decide +kernel
+example : (final exCfg [.start, .coordDone .ok, .metaDone .ok]).jpc = .join := by decide +kernel
+example : (final exCfg (exStable ++ [.stop])).stopping = false ∧
+    (final exCfg (exStable ++ [.stop, .consumerDown 0 true, .consumerDown 1 true])).stopping = true := by decide +kernel
+example : ((final exCfg (exStable ++ [.advance 5, .fire 0, .hbDone (.err .illegalGeneration)])).cons.map (·.phase)) =
+    [.stopped, .stopped] := by decide +kernel
 
 end Afkak.Props.C16
 
 /- OBLIGATIONS
 C16_fenced
+C16_starts_committed
+C16_join_adopted
 C16_join_no_running
+C16_mid_join_no_running
+C16_eviction_stops_first
+C16_after_stop_only_leave
 C16_stopping_quiesced
 C16_one_join_coroutine
 C16_eviction_table
+C16_join_after_drain_counterexample
 -/
 /- OPEN_STATEMENTS
+C16_join_after_drain
+C16_join_after_drain_nostop
+C16_one_join
+C16_heartbeat_only_stable
+C16_fenced_trace
 -/
